@@ -4,6 +4,7 @@ import (
 	"fmt"
 	"go/token"
 	"go/types"
+	"sort"
 	"strings"
 
 	"golang.org/x/tools/go/ssa"
@@ -322,4 +323,166 @@ func pooledEscapes(c *Ctx, f *ssa.Function) []string {
 		}
 	}
 	return out
+}
+
+// asyncBatchOwned (round 4): a slice handed to a function that reads it from a goroutine it starts (an
+// asynchronous consumer: the call returns before the elements have been read) must be owned by that hand-off —
+// built from nil/make by this call of the caller — and not kept by the caller in a field or package variable.
+// A scratch buffer reused across calls (buf = x.scratch[:0] … x.scratch = buf) is overwritten by the next
+// hand-off while the goroutine of the previous one is still reading it.
+// Returns the violations and the number of hand-off call sites examined.
+func (c *Ctx) asyncBatchOwned(pkg string) (bad []string, sites int) {
+	// asynchronous consumers: functions with a slice parameter captured by a closure they start with `go`
+	type consumer struct {
+		f   *ssa.Function
+		idx int
+	}
+	var consumers []consumer
+	for _, f := range c.P.AllFuncs(pkg) {
+		if f.Parent() != nil {
+			continue
+		}
+		for i, p := range f.Params {
+			if _, ok := p.Type().Underlying().(*types.Slice); !ok {
+				continue
+			}
+			captured := false
+			for _, b := range f.Blocks {
+				for _, ins := range b.Instrs {
+					g, ok := ins.(*ssa.Go)
+					if !ok {
+						continue
+					}
+					mc, ok := g.Call.Value.(*ssa.MakeClosure)
+					if !ok {
+						continue
+					}
+					for _, bnd := range mc.Bindings {
+						if bnd == p {
+							captured = true
+						}
+						if al, ok := bnd.(*ssa.Alloc); ok {
+							for _, r := range *al.Referrers() {
+								if st, ok := r.(*ssa.Store); ok && st.Addr == al && st.Val == p {
+									captured = true
+								}
+							}
+						}
+					}
+				}
+			}
+			if captured {
+				consumers = append(consumers, consumer{f, i})
+			}
+		}
+	}
+	var rootOf func(v ssa.Value, seen map[ssa.Value]bool) []string
+	rootOf = func(v ssa.Value, seen map[ssa.Value]bool) []string {
+		if v == nil || seen[v] {
+			return nil
+		}
+		seen[v] = true
+		switch x := v.(type) {
+		case *ssa.Const:
+			return nil // nil slice
+		case *ssa.MakeSlice:
+			return nil
+		case *ssa.Alloc:
+			return nil // backing array of a literal made by this call
+		case *ssa.Phi:
+			var out []string
+			for _, e := range x.Edges {
+				out = append(out, rootOf(e, seen)...)
+			}
+			return out
+		case *ssa.Slice:
+			return rootOf(x.X, seen)
+		case *ssa.Call:
+			if b, ok := x.Call.Value.(*ssa.Builtin); ok && b.Name() == "append" {
+				return rootOf(x.Call.Args[0], seen)
+			}
+			return []string{"the result of " + calleeName(x.Common())}
+		case *ssa.UnOp:
+			switch a := x.X.(type) {
+			case *ssa.FieldAddr:
+				return []string{"field " + fieldNameOf(a)}
+			case *ssa.Global:
+				return []string{"package variable " + a.Name()}
+			case *ssa.Alloc:
+				var out []string
+				for _, r := range *a.Referrers() {
+					if st, ok := r.(*ssa.Store); ok && st.Addr == a {
+						out = append(out, rootOf(st.Val, seen)...)
+					}
+				}
+				return out
+			}
+			return []string{"a value loaded from memory"}
+		case *ssa.Parameter:
+			return []string{"parameter " + x.Name()}
+		}
+		return []string{v.Name()}
+	}
+	for _, f := range c.P.AllFuncs(pkg) {
+		for _, b := range f.Blocks {
+			for _, ins := range b.Instrs {
+				call, ok := ins.(ssa.CallInstruction)
+				if !ok {
+					continue
+				}
+				sc := call.Common().StaticCallee()
+				for _, cs := range consumers {
+					if sc != cs.f || cs.idx >= len(call.Common().Args) {
+						continue
+					}
+					sites++
+					arg := call.Common().Args[cs.idx]
+					for _, r := range rootOf(arg, map[ssa.Value]bool{}) {
+						bad = append(bad, fmt.Sprintf("%s: %s hands %s a slice that lives in %s — the goroutine %s starts may still be reading the previous batch from the same backing array", c.P.Pos(ins.Pos()), f.Name(), cs.f.Name(), r, cs.f.Name()))
+					}
+					// the caller keeps no reference: the argument (or a value it was built from) is not stored into a field/global
+					var chain []ssa.Value
+					seen := map[ssa.Value]bool{}
+					var collect func(v ssa.Value)
+					collect = func(v ssa.Value) {
+						if v == nil || seen[v] {
+							return
+						}
+						seen[v] = true
+						chain = append(chain, v)
+						switch x := v.(type) {
+						case *ssa.Phi:
+							for _, e := range x.Edges {
+								collect(e)
+							}
+						case *ssa.Slice:
+							collect(x.X)
+						case *ssa.Call:
+							if bi, ok := x.Call.Value.(*ssa.Builtin); ok && bi.Name() == "append" {
+								collect(x.Call.Args[0])
+							}
+						}
+					}
+					collect(arg)
+					for _, v := range chain {
+						if v.Referrers() == nil {
+							continue
+						}
+						for _, r := range *v.Referrers() {
+							if st, ok := r.(*ssa.Store); ok && st.Val == v {
+								switch a := st.Addr.(type) {
+								case *ssa.FieldAddr:
+									bad = append(bad, fmt.Sprintf("%s: %s keeps the slice it hands to %s in field %s", c.P.Pos(st.Pos()), f.Name(), cs.f.Name(), fieldNameOf(a)))
+								case *ssa.Global:
+									bad = append(bad, fmt.Sprintf("%s: %s keeps the slice it hands to %s in package variable %s", c.P.Pos(st.Pos()), f.Name(), cs.f.Name(), a.Name()))
+								}
+							}
+						}
+					}
+				}
+			}
+		}
+	}
+	sort.Strings(bad)
+	return
 }
